@@ -33,6 +33,9 @@ pub fn bind_of(v: &Value) -> Option<SqlVal> {
         Value::String(Some(s)) => SqlVal::Text(s.as_bytes().to_vec()),
         Value::Char(Some(c)) => SqlVal::Text(c.to_string().into_bytes()),
         Value::Bytes(Some(b)) => SqlVal::Blob((**b).clone()),
+        // a JSON document reaches SQLite as its serialised text
+        Value::Json(Some(j)) => SqlVal::Text(j.to_string().into_bytes()),
+        Value::Json(None) => SqlVal::Null,
         Value::Bool(None)
         | Value::TinyInt(None)
         | Value::SmallInt(None)
